@@ -271,3 +271,33 @@ func c08ReadKeepsRemainder(c *Ctx) {
 func isCompareAddr(p *Program, f *ssa.Function) bool {
 	return f != nil && f == p.Func("server", "compareAddr")
 }
+
+// c08ListenerOwnVariables: a connection's identity (local address, peer address, its socket) is fixed when the
+// listener creates it. Goroutines that listeners and the server start per socket/port must not capture a variable
+// the starting loop assigns again: under the module's language version all iterations share one variable, so the
+// datagrams/connections of every earlier socket would be stamped with the last port's address and findService would
+// hand them to another port's services.
+func c08ListenerOwnVariables(c *Ctx) {
+	p := c.P
+	n := 0
+	for _, fn := range p.FuncsIn("listener", "server") {
+		hits := lateRebinds(fn)
+		byGo := map[*ssa.Go]bool{}
+		for _, h := range hits {
+			byGo[h.site] = true
+			name := h.alloc.Comment
+			c.Violate("goroutine-own-variables", shortFn(fn)+" go#"+fmt.Sprint(goOrdinal(fn, h.site))+" captures "+name, p.InstrPos(h.site), "the goroutine started here reads `"+name+"` ("+p.InstrPos(h.read)+"), a variable the enclosing function assigns again after the go statement ("+p.InstrPos(h.store)+"): go.mod's language version gives a loop one variable for all iterations, so this goroutine sees a later iteration's value – a datagram or connection of this socket is labelled with another port's address and dispatched to that port's services")
+		}
+		for _, b := range fn.Blocks {
+			for _, in := range b.Instrs {
+				if gi, ok := in.(*ssa.Go); ok {
+					if _, isMC := gi.Call.Value.(*ssa.MakeClosure); isMC && !byGo[gi] && InLoop(b) {
+						n++
+						c.Ok("goroutine-own-variables", shortFn(fn)+" go#"+fmt.Sprint(goOrdinal(fn, gi)), p.InstrPos(gi), "captures no variable that is assigned again after the go statement")
+					}
+				}
+			}
+		}
+	}
+	c.Floor("goroutine-own-variables", 2, "per-socket goroutines of the socket listener (tcp accept, udp receive)")
+}
